@@ -201,6 +201,20 @@ theorem bnd_ua : Bnd rdUA 1 65535 65535 := by
     rw [hl] at this
     omega
 
+theorem bnd_xst : Bnd rdXst 1 65535 65535 := by
+  unfold rdXst
+  refine (bnd_bind (bnd_readPad 1 1) (post_true _) fun r _ => bnd_ite ((bnd_pure _ 1).mono (k' := 65535) (e' := 65535) (by omega) (by omega)) ?_).mono
+    (by omega) (by omega)
+  refine (bnd_bind (bnd_readPad 4 1) (post_readPad 4) fun l hl =>
+    ((bnd_bind (bnd_allocate (fromBE (l.take 2)) 1) (post_true _) fun _ _ =>
+      (bnd_bind (bnd_readPad (fromBE (l.take 2)) 1) (post_true _) fun m _ => bnd_pure _ 1)).mono
+      (k' := 65535) (e' := 65535) ?_ ?_)).mono (by omega) (by omega)
+  all_goals
+    have := fromBE_lt (l.take 2)
+    have h2 : (l.take 2).length = 2 := by simp [hl]
+    rw [h2] at this
+    omega
+
 theorem bnd_pf : Bnd rdPF 1 0 65535 := by
   unfold rdPF
   refine (bnd_bind (bnd_u8 1) (post_true _) fun nt _ => (bnd_bind (bnd_u8 1) (post_true _) fun ft _ =>
